@@ -49,7 +49,7 @@ void *xmalloc(size_t size)
 void *xrealloc(void *ptr, size_t size)
 {
   register void *value = realloc (ptr, size);
-  if (value == 0){
+  if (value == 0 && size != 0){ /* a zero size request may legitimately return NULL */
     fprintf(stderr, "[Libscientific] Memory Exhausted!\n");
     abort();
   }
